@@ -243,8 +243,34 @@ Fixpoint sep_keys (a b : list value) : bool :=
   | va :: ar, vb :: br => sep2 va vb && sep_keys ar br
   | _, _ => true
   end.
-Fixpoint separated (l : list (list value)) : bool :=
+(* every ordered pair of records of U is separated *)
+Definition separated (U : list (list value)) : bool :=
+  forallb (fun a => forallb (sep_keys a) U) U.
+
+(* three-way lexicographic comparison of byte strings (used by the proofs) *)
+Fixpoint lex_cmp (a b : list N) : cmp :=
+  match a, b with
+  | [], [] => EQUAL
+  | [], _ :: _ => LESS
+  | _ :: _, [] => GREATER
+  | x :: a', y :: b' => if x <? y then LESS else if y <? x then GREATER else lex_cmp a' b'
+  end.
+
+(* numeric order of the first key, for stating what "out of order" means *)
+Fixpoint num_sorted_asc (l : list (list value)) : bool :=
   match l with
   | [] => true
-  | x :: r => sep_keys x x && forallb (sep_keys x) r && separated r
+  | a :: r =>
+    match r with
+    | [] => true
+    | b :: _ =>
+      match a, b with
+      | va :: _, vb :: _ =>
+        match num_of va, num_of vb with
+        | Some x, Some y => (x <=? y)%Z && num_sorted_asc r
+        | _, _ => num_sorted_asc r
+        end
+      | _, _ => num_sorted_asc r
+      end
+    end
   end.
